@@ -52,12 +52,13 @@ fn scenario(pr: &Params) -> Verdict {
         e3::make_echo_peer(*conn);
     }
     cap.send(&rc::handshake("PULL", Some(b"CAP")));
-    match pr.backpressure {
-        1 => world::script_wmodes(workers[0].from_lib, &[world::WMode::Budget(7), world::WMode::Open]),
-        2 => world::script_wmodes(clients[0].from_lib, &[world::WMode::Budget(7), world::WMode::Open]),
-        3 => world::script_wmodes(cap.from_lib, &[world::WMode::Budget(7), world::WMode::Open]),
-        _ => {}
-    }
+    // (the squeeze starts when the traffic does - see the setup task - and ends with a scripted environment event)
+    let squeezed = match pr.backpressure {
+        1 => Some(workers[0].from_lib),
+        2 => Some(clients[0].from_lib),
+        3 => Some(cap.from_lib),
+        _ => None,
+    };
     let frontend = RouterSocket::new();
     let backend = DealerSocket::new();
     let capture = PushSocket::new();
@@ -77,6 +78,12 @@ fn scenario(pr: &Params) -> Verdict {
         for c in &clients2 {
             let r = e3::attach_raw(fbe.clone(), *c).await;
             world::log(format!("attach(client) -> {}", e3::ok_or_err(&r)));
+        }
+        if let Some(d) = squeezed {
+            // every handshake is done; from here on that connection takes 7 more bytes and then nothing until the
+            // environment re-opens it
+            world::set_wmode(d, world::WMode::Budget(7));
+            world::script_wmodes(d, &[world::WMode::Open]);
         }
         world::set_cond("workers-ready");
         let capbox: Option<Box<dyn zeromq::CaptureSocket>> = if use_cap { Some(Box::new(capture)) } else { drop(capture); None };
